@@ -46,6 +46,24 @@ CHECKS = {
               "the covered shapes are covered; larger shapes are outside the claim. Not an unbounded proof."),
         note="Trusted: z3 4.8.12, go/ssa, the /verif symbolic executor; ids assumed >= 0; Attach_benchmark_core is not covered.",
         design="DESIGN.md section 3, C10"),
+    "C13": dict(
+        category="proof",
+        text=("Per generated module (the real BmStack.WriteHDL run natively at every check, for MemType x Depth x senders x receivers x "
+              "DataSize of the stated family), the Verilog is parsed and elaborated by /verif/vlog and z3 decides, with ALL state registers, "
+              "memory words and inputs symbolic: (1) inductive step from any state satisfying the representation invariant R: R is "
+              "preserved; an ack rises for at most one agent per cycle; a read ack returns and removes exactly the LIFO top / FIFO head and "
+              "keeps the rest; a write ack stores the value exactly once at the end; without a rising ack the abstract sequence is "
+              "unchanged; nothing is accepted when full / returned when empty; empty/full equal |seq| = 0 / Depth; acks are held while "
+              "requested and fall only after the request is dropped; (2) reset establishes R with the empty sequence (so all reachable "
+              "states are covered by induction); (3) bounded response by unrolling: a continuously requesting agent is acknowledged within "
+              "the stated number of cycles while space/data is available and the other agents follow the handshake. Depths > 4, more than "
+              "3 agents per side and the shr_stack/shr_queue wrappers are outside the claim."),
+        note=("Trusted: z3, /verif/vlog (own parser/elaborator/two-state cycle semantics of the generated subset), the Go text/template "
+              "engine. No Verilog simulator exists in the image: counterexamples are confirmed by concrete evaluation of the obligation "
+              "under the solver's model."),
+        design="DESIGN.md section 3, C13",
+        engine="vlog",
+        technique="generated Verilog -> transition relation over bit-vectors (own translator); inductive-step, reset and unrolled bounded-response obligations decided by z3"),
     "C15": dict(
         category="proof",
         text=("Parts 1 and 2 of the design, decided by SMT: for each of the 14 rule forms and each enumerated object/extra length, with field "
@@ -115,6 +133,7 @@ def main():
         "engines": [
             {"name": "smt", "path": "smt/", "serves_properties": served, "kind_free_text": "hash-consed Bool/bit-vector term DAG, SMT-LIB2 printer, long-lived z3/cvc5 processes"},
             {"name": "rex", "path": "rex/", "serves_properties": ["C08"], "kind_free_text": "Go regexp/syntax to SMT-LIB RegLan"},
+            {"name": "vlog", "path": "vlog/", "serves_properties": [p for p in ("C01", "C02", "C04", "C13") if p in CHECKS], "kind_free_text": "parser, elaborator and symbolic two-state cycle semantics for the Verilog subset the generators emit; HDL text produced natively by cmd/bmnative at every run"},
             {"name": "symgo", "path": "symgo/", "serves_properties": served, "kind_free_text": "own symbolic executor for go/ssa (predicated execution, guarded stores, merge at post-dominators); encoding regenerated from /repo's working tree at every run"},
         ],
         "checks": checks,
